@@ -44,7 +44,7 @@ case 2:
 	YIELD(2)
 }
 YIELD(9)
-RETNIL`, "switch", "break-after-yield-in-case"),
+RETNIL`, "switch", "break-targets-yielding-switch"),
 		G("continue-yielding-post", `
 n := 0
 for i := 0; i < 3; YIELD(100 + i) {
@@ -55,7 +55,7 @@ for i := 0; i < 3; YIELD(100 + i) {
 	n++
 	YIELD(n)
 }
-RETNIL`, "for", "continue+yielding-post"),
+RETNIL`, "for", "continue-in-loop-with-yielding-post"),
 		G("tagless-switch-yield", `
 x := tr.N(1, 4)
 switch {
